@@ -351,7 +351,9 @@ func c04Boundary(t c04Type) []float64 {
 // constants that fit the type, used as literal operands
 func c04Consts(t c04Type) []float64 {
 	if t.float {
-		return []float64{0, 1, 2, 3, 10, 100, 0.5, 1.5, 255, 1e10, 0.1}
+		// the negative zero stands for the spelling -0.0, which is the constant 0 in Go (constants have
+		// no signed zero): the templates write it out, the oracle loops use c04ConstVal
+		return []float64{0, 1, 2, 3, 10, 100, 0.5, 1.5, 255, 1e10, 0.1, math.Copysign(0, -1), -1, -2.5}
 	}
 	lo, hi := c04Range(t)
 	var res []float64
@@ -362,6 +364,9 @@ func c04Consts(t c04Type) []float64 {
 	}
 	return res
 }
+
+// c04ConstVal is the value Go gives the constant that c04Lit spells.
+func c04ConstVal(k float64) float64 { return k + 0 }
 
 func c04Lit(t c04Type, k float64) string {
 	if t.float {
@@ -411,6 +416,8 @@ func c04Source(t c04Type) string {
 	T := t.name
 	var sb strings.Builder
 	w := func(f string, a ...any) { fmt.Fprintf(&sb, f+"\n", a...) }
+	w("import \"golang.org/x/exp/maps\"")
+	w("import \"golang.org/x/exp/slices\"")
 	w("type S struct { A %s; B %s }", T, T)
 	w("var ga %s", T)
 	w("var gb %s", T)
@@ -569,6 +576,13 @@ func c04Source(t c04Type) string {
 		w("func d_ifinit_%d() any { if x := id(%s); true { return x }; return 0 }", ki, lit)
 		w("func d_switch_%d() any { var x %s; switch { default: x = %s }; return x }", ki, T, lit)
 		w("func d_range_%d() any { var r %s; for _, x := range []%s{%s} { r = x }; return r }", ki, T, T, lit)
+		// containers that a library function built: their element and key types are the argument's
+		w("func d_mapkeys_%d() any { m := map[%s]int{%s: 1}; ks := maps.Keys(m); ks = append(ks, %s); return ks[1] }", ki, T, lit, lit)
+		w("func d_mapkeysset_%d() any { m := map[%s]string{1: \"a\"}; ks := maps.Keys(m); ks[0] = %s; return ks[0] }", ki, T, lit)
+		w("func d_mapclone_%d() any { m := maps.Clone(map[string]%s{\"a\": 1}); m[\"k\"] = %s; return m[\"k\"] }", ki, T, lit)
+		w("func d_mapclone2_%d() any { m := maps.Clone(map[%s]%s{1: 1}); m[1] = %s; return m[1] }", ki, T, T, lit)
+		w("func d_slicesdelete_%d() any { s := slices.Delete([]%s{1, 1, 1}, 0, 1); s[0] = 1; s = append(s, %s); return s[2] }", ki, T, lit)
+		w("func d_sorted_%d() any { s := []%s{1, 1}; slices.Sort(s); s[0] = %s; return s[0] }", ki, T, lit)
 	}
 	return sb.String()
 }
@@ -781,6 +795,7 @@ func (w *c04Worker) unaryAll(a float64) {
 		}
 	}
 	for ki, k := range c04Consts(t) {
+		k = c04ConstVal(k)
 		w.call(fmt.Sprintf("nk_add_%d", ki), t, c04Bin(t, "add", a, k), []float64{a, k}, va)
 		w.call(fmt.Sprintf("nk_mul_%d", ki), t, c04Bin(t, "mul", k, a), []float64{k, a}, va)
 		w.call(fmt.Sprintf("nk_suba_%d", ki), t, c04Bin(t, "sub", a, k), []float64{a, k}, va)
@@ -793,6 +808,7 @@ func (w *c04Worker) unaryAll(a float64) {
 			continue
 		}
 		for ki, k := range c04Consts(t) {
+			k = c04ConstVal(k)
 			if !((op.name == "div" || op.name == "mod") && k == 0) && !(op.shift && k < 0) {
 				want := c04Bin(t, op.name, a, k)
 				w.call(fmt.Sprintf("kr_%s_%d", op.name, ki), t, want, []float64{a, k}, va)
@@ -842,8 +858,9 @@ func (w *c04Worker) shiftMixed(a float64, ct c04Type, c float64) {
 func (w *c04Worker) decls() {
 	t := w.t
 	for ki, k := range c04Consts(t) {
+		k = c04ConstVal(k)
 		for _, n := range []string{"var", "conv", "param", "ret", "field", "fieldset", "elem", "elemset", "map", "mapset", "append", "assign", "global", "multi",
-			"resliceset", "resliceapp", "reslice2", "variadic", "variadic2", "mparam", "mvariadic", "ret2", "ret2b", "two", "funclit", "nested", "mapslice", "fieldslice", "fieldmap", "appendmany", "swap", "ifinit", "switch", "range"} {
+			"resliceset", "resliceapp", "reslice2", "variadic", "variadic2", "mparam", "mvariadic", "ret2", "ret2b", "two", "funclit", "nested", "mapslice", "fieldslice", "fieldmap", "appendmany", "swap", "ifinit", "switch", "range", "mapkeys", "mapkeysset", "mapclone", "mapclone2", "slicesdelete", "sorted"} {
 			w.call(fmt.Sprintf("d_%s_%d", n, ki), t, c04Want{num: k}, []float64{k})
 		}
 		// (after calls that left values of type T in the frame's slots)
@@ -1017,7 +1034,7 @@ func runC04(r *core.Run) {
 			}
 		case "decl":
 			w.decls()
-			cnt[t.name+" typed declarations with constant initialiser"] += len(c04Consts(t)) * 14
+			cnt[t.name+" typed declarations with constant initialiser"] += len(c04Consts(t)) * 40
 		}
 		distinct[ti] = w.nerr
 		ndist[ti] = w.ndistinct
@@ -1048,7 +1065,37 @@ func runC04(r *core.Run) {
 
 	// pinned witnesses of repaired / recorded findings
 	c04Sentinels(r)
+	c04NegZero(r)
 	c04KnownFindings(r)
+}
+
+// c04NegZero: Go constants have no signed zero, so every spelling of "minus zero" is the constant 0
+// and 1 divided by a variable holding it is +Inf.
+func c04NegZero(r *core.Run) {
+	for _, sp := range []string{"-0.0", "-0.", "-0e0", "-(0.0)", "-0.0e-5", "- 0.0", "-.0", "+0.0", "-0x0p0"} {
+		for ci, ctx := range []string{
+			"z := %s; x := 1 / z; x",
+			"var z float64 = %s; x := 1 / z; x",
+			"func f() float64 { return %s }; x := 1 / f(); x",
+			"func g(z float64) float64 { return 1 / z }; x := g(%s); x",
+			"s := []float64{%s}; x := 1 / s[0]; x",
+			"const c = %s; z := 1.0; z = c; x := 1 / z; x",
+			"func h(a float64) float64 { return a + %s }; x := 1 / h(0.0); x",
+		} {
+			src := fmt.Sprintf(ctx, sp)
+			m := core.NewMachine(core.VMOpts{Optimize: ci%2 == 0})
+			o := m.Eval(nil, src)
+			r.Eval(1)
+			if o.Err != "" && strings.Contains(o.Err, "error in parse") {
+				r.Count("negative_zero_spellings_not_parsed", 1)
+				continue
+			}
+			r.Count("negative_zero_spellings", 1)
+			if o.Failed() || len(o.Rets) != 1 || o.Rets[0] != "+Inf" {
+				r.Violate(core.Violation{Check: "c04-sentinel", What: "a float constant spelled with a minus sign in front of zero is not the constant 0", Case: src, Expected: "+Inf (float64)", Observed: o})
+			}
+		}
+	}
 }
 
 func c04Sentinels(r *core.Run) {
@@ -1088,6 +1135,19 @@ func c04KnownFindings(r *core.Run) {
 				r.KnownFinding("K06")
 			} else {
 				r.Violate(core.Violation{Check: "c04-sentinel", What: "a &^ (1 << c) with c >= 53 does not leave a unchanged", Case: "var a int8 = -127; c := 56; x := a &^ (1 << c); x", Expected: "-127 (int8)", Observed: o})
+			}
+		}
+	}
+	{
+		m := core.NewMachine(core.VMOpts{Optimize: true})
+		src := "a := 0.0 * -1; x := 1 / a; x"
+		o := m.Eval(nil, src)
+		r.Eval(1)
+		if !(len(o.Rets) == 1 && o.Rets[0] == "+Inf") {
+			if r.Findings().Open("K08") {
+				r.KnownFinding("K08")
+			} else {
+				r.Violate(core.Violation{Check: "c04-sentinel", What: "a constant expression whose exact value is zero yields a negative zero", Case: src, Expected: "+Inf (float64)", Observed: o})
 			}
 		}
 	}
